@@ -1,113 +1,109 @@
 (** C02 — stored messages are returned as they were submitted.
     Statements only; every proof is [exact <lemma>].
-    [hash] stands for sha256 (any function: no collision-freeness is needed,
-    a collision is just another way to meet class DedupForeignForm). *)
+    The model is raven's parse / store / rebuild path as of the fixes
+    fixes/C02-1 .. C02-6; no class of inputs is excepted any more.
+    [hash] stands for sha256 (any function: a collision is harmless since
+    fix C02-6, a blob is used only if it holds exactly the part's octets). *)
 From Coq Require Import String Ascii List Bool Arith ZArith.
 From Raven Require Import Base.GoStr Base.GoStrMime Spec.Mime Model.MimeHeaders Model.MimeStore Model.MimeBoundary
-  Spec.MimeCheck Proof.MimeBlob Proof.MimeTrim Proof.MimeSingle Proof.MimeRefute.
+  Spec.MimeCheck Proof.MimeBlob Proof.MimeTrim Proof.MimeRows Proof.MimeTree Proof.MimeTree2 Proof.MimeMulti
+  Proof.MimeSingle Proof.MimeLeaf Proof.MimeRoundtrip Proof.MimeRegress.
 Import ListNotations.
 
-(** Single-part messages: for EVERY header list, body, blob history [bs] and
-    later stores [later], outside the finding classes the fetched message has
-    identical body octets and the same header fields in order, names and values
-    up to surrounding white space, plus at most one default Content-Type. *)
-Theorem c02_roundtrip_single : forall (hash : str -> str) (bs later : blobs) (hs : list header) (b : str),
-  hs <> [] ->
-  classify hash bs (mk_msg hs (Single b)) = None ->
-  spec_ok (mk_msg hs (Single b)) (roundtrip hash bs (mk_msg hs (Single b)) later) = true.
-Proof. exact single_roundtrip. Qed.
-Print Assumptions c02_roundtrip_single.
+(** THE PROPERTY, round trip: for every hash function, every blob history [bs]
+    (messages of any user stored before), every later store [later] and every
+    well-formed message [m] (single-part or a MIME tree of any shape and depth),
+    FETCH returns a message equivalent to [m] under the property's equivalence
+    [msg_equiv]: single-part — identical body octets, same header fields in order,
+    names and values up to surrounding white space, at most one default
+    Content-Type added; multipart — same tree, per node media type, charset, file
+    name, content-id and decoded content up to a final line break. *)
+Theorem c02_roundtrip : forall (hash : str -> str) (bs later : blobs) (m : msg),
+  wf_msg m = true -> spec_ok m (roundtrip hash bs m later) = true.
+Proof. exact roundtrip_all. Qed.
+Print Assumptions c02_roundtrip.
 
-(** What a single-part message returns depends neither on the messages stored
-    before it (any two blob histories) nor on when it is fetched (any later stores). *)
-Theorem c02_independent_single : forall (hash : str -> str) (bs1 bs2 later1 later2 : blobs) (hs : list header) (b : str),
-  hs <> [] ->
-  classify hash bs1 (mk_msg hs (Single b)) = None ->
-  classify hash bs2 (mk_msg hs (Single b)) = None ->
-  roundtrip hash bs1 (mk_msg hs (Single b)) later1 = roundtrip hash bs2 (mk_msg hs (Single b)) later2.
-Proof. exact single_independent. Qed.
-Print Assumptions c02_independent_single.
+(** THE PROPERTY, independence and stability: what a message returns depends
+    neither on the messages stored before it (any two histories) nor on when it
+    is fetched (any later stores). *)
+Theorem c02_independent : forall (hash : str -> str) (bs1 bs2 later1 later2 : blobs) (m : msg),
+  wf_msg m = true -> roundtrip hash bs1 m later1 = roundtrip hash bs2 m later2.
+Proof. exact independent_all. Qed.
+Print Assumptions c02_independent.
 
-(** The result is explicit: stored header fields + what the rebuild appends + the body. *)
+(** explicit results *)
 Theorem c02_single_result : forall (hash : str -> str) (bs later : blobs) (hs : list header) (b : str),
   hs <> [] ->
-  single_no_boundary hs = false ->
-  conflict_parts hash bs (snd (parse_msg (mk_msg hs (Single b)))) = false ->
   roundtrip hash bs (mk_msg hs (Single b)) later
   = Some (mk_msg (map out_hdr (map hdr_store hs) ++ single_extra hs) (Single b)).
 Proof. exact single_result. Qed.
 Print Assumptions c02_single_result.
 
-(** the first message ever stored meets no conflicting blob *)
-Theorem c02_no_conflict_on_empty_store : forall (hash : str -> str) (hs : list header) (b : str),
-  conflict_parts hash [] (snd (parse_msg (mk_msg hs (Single b)))) = false.
-Proof. exact single_no_conflict_empty. Qed.
-Print Assumptions c02_no_conflict_on_empty_store.
+Theorem c02_multipart_result : forall (hash : str -> str) (bs later : blobs) (hs : list header) (st : str) (ks : list mime),
+  wf_kids ks = true -> kept_hdrs hs st <> [] ->
+  roundtrip hash bs (mk_msg hs (Multipart st ks)) later
+  = Some (mk_msg (map out_hdr (kept_hdrs hs st) ++ [(S_ "MIME-Version", S_ " 1.0")])
+                 (Multipart (to_lower st) (map tmap ks))).
+Proof. exact multi_result. Qed.
+Print Assumptions c02_multipart_result.
 
-(** every header field without the FoldWs shape keeps its name and value up to surrounding white space *)
-Theorem c02_header_field_kept : forall h : header,
-  fold_ws h = false -> hdr_eqv h (out_hdr (hdr_store h)) = true.
+(** tree shape: flattening with parent indices, relative part numbers and the
+    rebuild by parent id + part number give back the tree, wherever its rows lie
+    inside a row list *)
+Theorem c02_tree_rebuild : forall t : mime, node_ok t.
+Proof. exact all_nodes_ok. Qed.
+Print Assumptions c02_tree_rebuild.
+
+(** per leaf: media type, charset, file name, content-id, decoded content *)
+Theorem c02_leaf_roundtrip : forall l : leaf, wf_leaf l = true -> leaf_equiv l (leaf_image l) = true.
+Proof. exact leaf_roundtrip. Qed.
+Print Assumptions c02_leaf_roundtrip.
+
+(** every header field keeps its name and value up to surrounding white space *)
+Theorem c02_header_field_kept : forall h : header, hdr_eqv h (out_hdr (hdr_store h)) = true.
 Proof. exact hdr_kept. Qed.
 Print Assumptions c02_header_field_kept.
+
+(** the non-MIME header fields of a multipart message come back in order *)
+Theorem c02_multipart_headers_kept : forall (hs : list header) (st : str),
+  Forall2 (fun h h' => hdr_eqv h h' = true)
+          (filter (fun h => negb (is_mime_hdr (fst h))) hs) (map out_hdr (kept_hdrs hs st)).
+Proof. exact multipart_headers_kept. Qed.
+Print Assumptions c02_multipart_headers_kept.
+
+(** blob de-duplication is invisible: the stored rows read with the blob table of
+    any later time are the rows one gets without a blob table *)
+Theorem c02_blobs_invisible : forall (hash : str -> str) (todo : list ppart) (bs : blobs) (done : list ppart) (rows : list row)
+  (bs' : blobs) (rows' : list row),
+  store_parts hash bs done todo rows = (bs', rows') ->
+  exists ext new, bs' = bs ++ ext /\ rows' = rows ++ new /\
+    forall later, map (inline_row (bs' ++ later)) new = rowsP_aux done todo.
+Proof. exact store_parts_inline. Qed.
+Print Assumptions c02_blobs_invisible.
 
 Theorem c02_blob_rows_are_immutable : forall (bs later : blobs) (id : nat),
   id < length bs -> get_blob (bs ++ later) id = get_blob bs id.
 Proof. exact get_blob_app. Qed.
 Print Assumptions c02_blob_rows_are_immutable.
 
-(** ---- refutations: the faithful model violates the property on each class *)
-Theorem c02_refuted_dedup :
-  classify hid bs_after_first m_second = Some DedupForeignForm
-  /\ spec_ok m_second (roundtrip hid bs_after_first m_second []) = false
-  /\ spec_ok m_second (roundtrip hid [] m_second []) = true.
-Proof. exact refuted_dedup. Qed.
-Print Assumptions c02_refuted_dedup.
+(** ---- regression examples about the behaviour before the fixes (old code, not the model) *)
+Example c02_old_fold_ws_lost : hdr_eqv h_fold (out_hdr (old_hdr_store h_fold)) = false.
+Proof. exact old_fold_ws_lost. Qed.
 
-Theorem c02_refuted_independence :
-  omsg_eqb (roundtrip hid bs_after_first m_second []) (roundtrip hid [] m_second []) = false.
-Proof. exact refuted_independence. Qed.
-Print Assumptions c02_refuted_independence.
+Example c02_old_boundary_unstable :
+  str_eqb (old_gen_boundary (S_ "multipart/mixed") 1790887695926728677)
+          (old_gen_boundary (S_ "multipart/mixed") 1790887696187990678) = false.
+Proof. exact old_boundary_unstable. Qed.
 
-Theorem c02_refuted_no_boundary :
-  classify hid [] m_nob = Some NoBoundary /\ roundtrip hid [] m_nob [] = None.
-Proof. exact refuted_no_boundary. Qed.
-Print Assumptions c02_refuted_no_boundary.
+(** ---- non-vacuity: the hypotheses are satisfiable (depth 4, all encodings, a
+    name= only attachment, a multipart/* leaf without boundary, a default-typed part;
+    a single-part message with NUL and 8-bit octets, CTE without charset) *)
+Example c02_wf_examples : wf_msg m_deep = true /\ wf_msg m_nob = true.
+Proof. exact (conj deep_is_wf single_is_wf). Qed.
 
-Theorem c02_refuted_no_boundary_nested :
-  classify hid [] m_nob_nested = Some NoBoundary /\ spec_ok m_nob_nested (roundtrip hid [] m_nob_nested []) = false.
-Proof. exact refuted_no_boundary_nested. Qed.
-Print Assumptions c02_refuted_no_boundary_nested.
-
-Theorem c02_refuted_fold_ws :
-  classify hid [] m_fold = Some FoldWs /\ spec_ok m_fold (roundtrip hid [] m_fold []) = false.
-Proof. exact refuted_fold_ws. Qed.
-Print Assumptions c02_refuted_fold_ws.
-
-Theorem c02_refuted_dup_cte :
-  classify hid [] m_dupcte = Some DupCte /\ spec_ok m_dupcte (roundtrip hid [] m_dupcte []) = false.
-Proof. exact refuted_dup_cte. Qed.
-Print Assumptions c02_refuted_dup_cte.
-
-Theorem c02_refuted_ct_name :
-  classify hid [] m_ctname = Some CtNameDropped /\ spec_ok m_ctname (roundtrip hid [] m_ctname []) = false.
-Proof. exact refuted_ct_name. Qed.
-Print Assumptions c02_refuted_ct_name.
-
-Theorem c02_refuted_unstable_boundary :
-  str_eqb (container_ct_line (S_ "multipart/mixed") 1790887695926728677)
-          (container_ct_line (S_ "multipart/mixed") 1790887696187990678) = false
-  /\ gen_boundary (S_ "multipart/mixed") 1790887695926728677 = S_ "----=_Part_Mixed_1790887695926728677".
-Proof. exact refuted_unstable_boundary. Qed.
-Print Assumptions c02_refuted_unstable_boundary.
-
-(** ---- non-vacuity / tests (finite evaluations, not the property theorem) *)
-Example c02_hypotheses_satisfiable : classify hid bs_after_first m_plain = None /\ H0 <> [].
-Proof. exact plain_classify_none. Qed.
-
-(** multipart messages: the tree-level round trip (flattening, relative
-    numbering, rebuild, per-leaf rules) is NOT proved for all trees (see
-    NOTES/C02.md); it is evaluated on this depth-4 message and, on every run,
-    on the generated trees of the correspondence check ([mspec] column). *)
-Example c02_multipart_depth4_example :
-  classify hid [] m_deep = None /\ spec_ok m_deep (roundtrip hid [] m_deep []) = true.
-Proof. exact deep_roundtrip. Qed.
+(** the former DedupForeignForm witness: equivalent and history-independent now *)
+Example c02_dedup_witness_ok :
+  wf_msg m_second = true
+  /\ spec_ok m_second (roundtrip hid bs_after_first m_second []) = true
+  /\ omsg_eqb (roundtrip hid bs_after_first m_second []) (roundtrip hid [] m_second []) = true.
+Proof. exact dedup_witness_ok. Qed.
